@@ -372,6 +372,24 @@ Proof.
   apply exp_increasing. rewrite sqrt_1. lra.
 Qed.
 
+(* ... and so is t0 + t > 0 (a negative offset below -t flips the sign of the update) *)
+Theorem monotone_needs_offset_pos :
+  exists c ks a a' tie, 0 < c_gamma c /\ c_t0 c + INR (tie + 1) < 0 /\ a < a'
+    /\ step (da_step c ks a' tie) < step (da_step c ks a tie).
+Proof.
+  exists (mkDC (1/2) 1 1 (-3)), (mkDA 1 0 0 0), 0, 1, 0%nat.
+  cbn [c_gamma c_t0 Nat.add INR]. repeat split; try lra.
+  unfold da_step. cbn [step esum mu c_delta c_gamma c_t0 Nat.add INR].
+  apply exp_increasing. rewrite sqrt_1. lra.
+Qed.
+
+Theorem monotone_hyps_needed :
+  (exists c ks a a' tie, c_gamma c < 0 /\ 0 < c_t0 c + INR (tie + 1) /\ a < a'
+    /\ step (da_step c ks a' tie) < step (da_step c ks a tie))
+  /\ (exists c ks a a' tie, 0 < c_gamma c /\ c_t0 c + INR (tie + 1) < 0 /\ a < a'
+    /\ step (da_step c ks a' tie) < step (da_step c ks a tie)).
+Proof. split; [exact monotone_needs_gamma_pos|exact monotone_needs_offset_pos]. Qed.
+
 (* ---------------------------------------------------------------------------------------- *)
 (* whole-epoch monotonicity (kappa >= 0): pointwise higher acceptance -> final step not smaller *)
 (* ---------------------------------------------------------------------------------------- *)
@@ -615,6 +633,69 @@ Proof.
   destruct ety; try discriminate; cbn [da]; exact Hf.
 Qed.
 
+(* outside adaptation (or without tuning) the state seen after ANY number of transitions of the epoch
+   is the state the epoch was entered with: it never changes between transitions *)
+Theorem frozen_between_transitions k c ety (ks : kstate) accs i j :
+  is_adaptation ety = false \/ tunes k = false ->
+  transitions k c ety (start_epoch k ks) 0 (firstn i accs)
+  = transitions k c ety (start_epoch k ks) 0 (firstn j accs).
+Proof.
+  intros H. destruct (epoch_core_frozen k c ety ks accs H) as [_ T]. rewrite (T i), (T j). reflexivity.
+Qed.
+
+(* a whole burn-in / posterior epoch, as the engine runs it (no tune call): over R the step size is
+   the one the epoch was entered with, and the rest of the kernel state is untouched *)
+Theorem frozen_run_epoch k c ety hist (ks : kstate) accs :
+  ety = Burnin \/ ety = Post -> 0 < step (da ks) ->
+  step (da (run_epoch k c ety hist ks accs)) = step (da ks)
+  /\ rest (run_epoch k c ety hist ks accs) = rest ks.
+Proof.
+  intros He Hs.
+  assert (Ha : is_adaptation ety = false) by (destruct He as [-> | ->]; reflexivity).
+  assert (Hr : run_epoch k c ety hist ks accs = epoch_core k c ety ks accs).
+  { unfold run_epoch. rewrite Ha. destruct He as [-> | ->]; reflexivity. }
+  rewrite Hr. split.
+  - apply frozen_epoch_step; [left; exact Ha|exact Hs].
+  - destruct (epoch_core_frozen k c ety ks accs (or_introl Ha)) as [-> _]. reflexivity.
+Qed.
+
+(* RW / MH / IWLS have no tune step: after an adaptation epoch with at least one transition the
+   kernel's step size IS exp of the averaged log step size, whatever history the engine passes *)
+Theorem run_epoch_step_no_mm k c ety hist (ks : kstate) accs :
+  is_adaptation ety = true -> tunes k = true -> has_mm k = false -> accs <> [] ->
+  step (da (run_epoch k c ety hist ks accs)) = exp (lavg_spec c (ln (10 * step (da ks))) accs).
+Proof.
+  intros He Hk Hm Hne. rewrite <- (run_epoch_step k c ety ks accs He Hk Hne).
+  unfold run_epoch, tune. rewrite Hm. cbn [andb]. reflexivity.
+Qed.
+
+(* HMC / NUTS after a slow epoch with a history: the averaged step size times the adjustment *)
+Theorem run_epoch_step_mm k c adj newx (ks : kstate) accs :
+  tunes k = true -> has_mm k = true -> accs <> [] ->
+  step (da (run_epoch k c Slow (Some (adj, newx)) ks accs))
+  = adj * exp (lavg_spec c (ln (10 * step (da ks))) accs)
+  /\ rest (run_epoch k c Slow (Some (adj, newx)) ks accs) = newx.
+Proof.
+  intros Hk Hm Hne. unfold run_epoch. cbn [is_adaptation etype_num Nat.ltb Nat.leb andb].
+  rewrite epoch_core_adaptive by (try reflexivity; exact Hk).
+  unfold tune. rewrite Hm. cbn [is_slow etype_num Nat.eqb andb da rest step].
+  destruct (finalize_epoch c (da ks) accs Hne) as (Hf & _). rewrite Hf. split; reflexivity.
+Qed.
+
+Theorem run_epoch_step_all k c ety hist adj newx (ks : kstate) accs :
+  tunes k = true -> accs <> [] ->
+  (is_adaptation ety = true -> has_mm k = false ->
+     step (da (run_epoch k c ety hist ks accs)) = exp (lavg_spec c (ln (10 * step (da ks))) accs))
+  /\ (has_mm k = true ->
+     step (da (run_epoch k c Slow (Some (adj, newx)) ks accs))
+     = adj * exp (lavg_spec c (ln (10 * step (da ks))) accs)
+     /\ rest (run_epoch k c Slow (Some (adj, newx)) ks accs) = newx).
+Proof.
+  intros Hk Hne. split.
+  - intros He Hm. apply run_epoch_step_no_mm; assumption.
+  - intros Hm. apply run_epoch_step_mm; assumption.
+Qed.
+
 End KernelProofs.
 
 (* ======================================================================================== *)
@@ -652,4 +733,34 @@ Proof.
   split; [reflexivity|].
   unfold transition, adaptive_transition, standard_transition. cbn [is_adaptation etype_num Nat.ltb Nat.leb andb tunes da rest].
   intros H. apply (f_equal (fun s => esum (da s))) in H. unfold da_step in H. cbn [da esum c_delta c_default] in H. lra.
+Qed.
+
+Example restart_hyp_sat :
+  let ks : kstate unit := mkKS (mkDA (1/2) 3 4 5) tt in
+  run_schedule NUTS c_default ks [(Post, [1/2], None); (Fast, [1/4; 3/4], None)]
+  = mkKS (da_epoch c_default (mkDA (step (da (run_schedule NUTS c_default ks [(Post, [1/2], None)]))) 0 0 0) [1/4; 3/4]) tt.
+Proof.
+  cbv zeta.
+  exact (restart_per_epoch unit NUTS c_default (mkKS (mkDA (1/2) 3 4 5) tt) [(Post, [1/2], None)] Fast [1/4; 3/4] None 0 0 0
+           eq_refl eq_refl).
+Qed.
+
+Example first_avg_hyp_sat :
+  da_steps c_default (mkDA 2 0 (ln 2) (ln 20)) 0 [1/2] = da_steps c_default (mkDA 2 0 0 (ln 20)) 0 [1/2]
+  /\ da_steps c_default (mkDA 2 0 (ln 2) (ln 20)) 0 [] <> da_steps c_default (mkDA 2 0 0 (ln 20)) 0 [].
+Proof.
+  split.
+  - apply first_avg_independent. discriminate.
+  - cbn [da_steps]. intros H. apply (f_equal lavg) in H. cbn [lavg] in H.
+    assert (0 < ln 2) by (rewrite <- ln_1; apply ln_increasing; lra). lra.
+Qed.
+
+Example finalize_hyp_sat :
+  step (da_epoch c_default (mkDA 1 0 0 0) [1/2]) = exp (lstep_spec c_default (ln 10) [1/2]).
+Proof.
+  assert (Hne : [1/2] <> ([] : list R)) by discriminate.
+  destruct (finalize_epoch c_default (mkDA 1 0 0 0) [1/2] Hne) as (Hf & _).
+  rewrite Hf. cbn [step]. rewrite Rmult_1_r. f_equal.
+  unfold lavg_spec, wavg, weight, prod_keep. cbn [length seq map firstn Nat.sub].
+  unfold Rsum, Rprod. cbn [fold_right map]. rewrite eta_n_1. ring.
 Qed.
